@@ -163,7 +163,21 @@ func resolveMathClamp(t v1.MathTransform, input any) (any, error) {
 	case int64:
 		in = i
 	case float64:
-		in = int64(i)
+		// Compare floats as floats: truncating to an integer first would let
+		// e.g. 2.9 pass a ClampMax of 2 unchanged.
+		switch t.GetType() { //nolint:exhaustive // We validate the type in ResolveMath
+		case v1.MathTransformTypeClampMin:
+			if i < float64(*t.ClampMin) {
+				return *t.ClampMin, nil
+			}
+		case v1.MathTransformTypeClampMax:
+			if i > float64(*t.ClampMax) {
+				return *t.ClampMax, nil
+			}
+		default:
+			return nil, errors.Errorf(errMathTransformTypeFailed, string(t.Type))
+		}
+		return input, nil
 	default:
 		// should never happen as we validate the input type in ResolveMath
 		return nil, errors.Errorf(errFmtMathInputNonNumber, input)
